@@ -112,6 +112,14 @@ pub struct ResponseStream<'a, T> {
     state: ResponseStreamState,
 }
 
+#[cfg(feature = "djc_tokio_imap_verif")]
+impl<'a, T> ResponseStream<'a, T> {
+    /// the transport below a live response stream (verification hook)
+    pub fn verif_io(&mut self) -> &mut T {
+        self.client.transport.get_mut()
+    }
+}
+
 impl<'a, T> Stream for ResponseStream<'a, T>
 where
     T: AsyncRead + AsyncWrite + Unpin,
